@@ -4,7 +4,7 @@
 From Coq Require Import ZArith List Bool Lia.
 From BV Require Import Base.Bytes Proofs.Bytes Model.SpecCodec Proofs.SpecCodec
   Model.CodecsBase Proofs.CodecsBase Model.CodecsL2cap Proofs.CodecsL2cap
-  Model.CodecsSdp Proofs.CodecsSdp Model.CodecsAv Proofs.CodecsAv Gen.C18Tables Model.CodecsXfields Gen.C18XRegistry.
+  Model.CodecsSdp Proofs.CodecsSdp Model.CodecsAv Proofs.CodecsAv Gen.C18Tables Model.CodecsXfields Gen.C18XRegistry Gen.C18AvrcpRegistry.
 Import ListNotations.
 Open Scope Z_scope.
 
@@ -147,6 +147,23 @@ Proof.
     apply andb_true_iff in H as [H1 H2]. apply Z.eqb_eq in H2.
     exists [Z.shiftl z 2]. split; [cbn [ser_x]; rewrite H1; reflexivity|].
     intro tail. cbn [par_x app]. rewrite H2. reflexivity.
+  - (* length-prefixed string *) destruct v as [|b| |]; try discriminate. cbn [inr_x] in Hi.
+    apply andb_true_iff in Hi as [Hc Hb].
+    exists (be_encode n (lenZ b) ++ b). split; [cbn [ser_x]; rewrite Hc; reflexivity|].
+    intro tail. cbn [par_x]. pose proof Hc as Hc'. apply u_range_iff in Hc'.
+    rewrite <- app_assoc.
+    assert (Hf : firstn n (be_encode n (lenZ b) ++ b ++ tail) = be_encode n (lenZ b)).
+    { rewrite <- (be_encode_length n (lenZ b)) at 1. apply firstn_app_exact. }
+    assert (Hsk : skipn n (be_encode n (lenZ b) ++ b ++ tail) = b ++ tail).
+    { rewrite <- (be_encode_length n (lenZ b)) at 1. apply skipn_app_exact. }
+    rewrite Hf, Hsk. rewrite be_decode_encode by exact Hc'. rewrite lenZ_to_nat, firstn_app_exact.
+    rewrite app_length, be_encode_length. reflexivity.
+  - (* 64-bit big endian *) destruct v as [z| | |]; try discriminate. cbn [inr_x] in Hi.
+    exists (be_encode 8 z). split; [cbn [ser_x]; rewrite Hi; reflexivity|].
+    intro tail. cbn [par_x]. apply u_range_iff in Hi.
+    assert (Hf : firstn 8 (be_encode 8 z ++ tail) = be_encode 8 z).
+    { rewrite <- (be_encode_length 8 z) at 1. apply firstn_app_exact. }
+    rewrite Hf, be_decode_encode by exact Hi. rewrite be_encode_length. reflexivity.
 Qed.
 
 Theorem X_last : rt_last X_codec.
@@ -196,6 +213,56 @@ Proof.
     + cbn [par_x]. rewrite (tlv_value_roundtrip l true b Hi Hb). rewrite (caps_of_inv vs l El). reflexivity.
 Qed.
 
+(* ---- array groups over the extended codec (the proof of Proofs/SpecCodec.v's arr_tight,
+   which there sits under the full codec_ok hypothesis, redone from rt_tight alone) *)
+Lemma x_rows_tight : forall ss k, tight_seq X_codec ss = true -> tight_seq (seq_codec X_codec) (repeat ss k) = true.
+Proof.
+  intros ss k H. unfold tight_seq at 1. apply forallb_repeat. cbn.
+  rewrite H, (tight_seq_wf_seq X_codec ss H). reflexivity.
+Qed.
+
+Lemma seq_X_tight : rt_tight (seq_codec X_codec).
+Proof.
+  intros ss prev v Hw Ht Hi. destruct v as [| | |vs]; try discriminate.
+  destruct (seq_tight X_codec X_tight ss prev vs Ht Hi) as [b [Hs Hp]].
+  exists b. split; [exact Hs|]. intro tail. cbn. rewrite Hp. reflexivity.
+Qed.
+
+Lemma x_arr_tight : forall ss prev v,
+  wf_field X_codec (Arr ss) = true -> inr_field X_codec (Arr ss) prev v = true ->
+  exists b, ser_field X_codec (Arr ss) v = Some b /\
+            forall tail, par_field X_codec (Arr ss) prev (b ++ tail) = Some (v, length b).
+Proof.
+  intros ss prev v Hw Hi.
+  assert (Ht : tight_seq X_codec ss = true) by (cbn in Hw; destruct ss; [discriminate|exact Hw]).
+  destruct v as [| | |rows]; try discriminate.
+  cbn [inr_field] in Hi. apply andb_true_iff in Hi as [Hlen Hi].
+  destruct (seq_tight (seq_codec X_codec) seq_X_tight (repeat ss (length rows)) (Z.of_nat (length rows)) rows
+              (x_rows_tight ss _ Ht) Hi) as [b [Hs Hp]].
+  exists (Z.of_nat (length rows) :: b). split.
+  - cbn [ser_field]. rewrite Hlen. rewrite Hs. reflexivity.
+  - intro tail. cbn [par_field app]. rewrite Nat2Z.id. rewrite Hp. reflexivity.
+Qed.
+
+Theorem XF_tight : rt_tight XF_codec.
+Proof.
+  intros f prev v Hw Ht Hi. destruct f as [s|ss].
+  - exact (X_tight s prev v Hw Ht Hi).
+  - exact (x_arr_tight ss prev v Hw Hi).
+Qed.
+Theorem XF_last : rt_last XF_codec.
+Proof.
+  intros f prev v Hw Hi. destruct f as [s|ss].
+  - exact (X_last s prev v Hw Hi).
+  - apply (tight_gives_last XF_codec (Arr ss)). exact (x_arr_tight ss prev v Hw Hi).
+Qed.
+
+(* field lists with array groups *)
+Theorem xffields_roundtrip : forall fs prev0 vs,
+  wf XFTop_codec fs = true -> inr XFTop_codec fs prev0 (VList vs) = true ->
+  exists b n, ser XFTop_codec fs (VList vs) = Some b /\ par_seq XF_codec fs prev0 b = Some (vs, n) /\ (n <= length b)%nat.
+Proof. intros fs prev0 vs Hw Hi. exact (seq_last XF_codec XF_tight XF_last fs prev0 vs Hw Hi). Qed.
+
 (* every field list, every in-range value list: fields -> bytes -> fields *)
 Theorem xfields_roundtrip : forall fs prev0 vs,
   xwf fs = true -> xin_range fs prev0 vs = true ->
@@ -236,3 +303,27 @@ Lemma gen_xfields_roundtrip : forall c, In c C18XRegistry.xclasses ->
   exists b n, xserialize (x_fields c) vs = Some b /\
               xparse (x_fields c) prev0 b = Some (vs, n) /\ (n <= length b)%nat.
 Proof. exact (xregistry_fields_roundtrip C18XRegistry.xclasses xregistry_checked). Qed.
+
+(* ---------------------------------------------------------------- AVRCP registry *)
+Theorem xfregistry_fields_roundtrip : forall cs, wf_xfregistry cs = true ->
+  forall c, In c cs -> forall prev0 vs, xfin_range (xf_fields c) prev0 vs = true ->
+  exists b n, xfserialize (xf_fields c) vs = Some b /\
+              xfparse (xf_fields c) prev0 b = Some (vs, n) /\ (n <= length b)%nat.
+Proof.
+  intros cs Hwf c Hin prev0 vs Hr. unfold wf_xfregistry in Hwf. rewrite forallb_forall in Hwf.
+  specialize (Hwf c Hin). unfold wf_xfcls in Hwf. rewrite !andb_true_iff in Hwf. destruct Hwf as [[Hw _] _].
+  exact (xffields_roundtrip (xf_fields c) prev0 vs Hw Hr).
+Qed.
+
+Lemma avrcp_registry_checked : wf_xfregistry C18AvrcpRegistry.avrcp_classes = true.
+Proof. vm_compute. reflexivity. Qed.
+Lemma avrcp_keys_checked : xfkeys_unique C18AvrcpRegistry.avrcp_classes = true.
+Proof. vm_compute. reflexivity. Qed.
+Lemma avrcp_count_checked :
+  (length C18AvrcpRegistry.avrcp_classes + length C18AvrcpRegistry.avrcp_untranslated)%nat = C18AvrcpRegistry.avrcp_registered_total.
+Proof. vm_compute. reflexivity. Qed.
+Lemma gen_avrcp_roundtrip : forall c, In c C18AvrcpRegistry.avrcp_classes ->
+  forall prev0 vs, xfin_range (xf_fields c) prev0 vs = true ->
+  exists b n, xfserialize (xf_fields c) vs = Some b /\
+              xfparse (xf_fields c) prev0 b = Some (vs, n) /\ (n <= length b)%nat.
+Proof. exact (xfregistry_fields_roundtrip C18AvrcpRegistry.avrcp_classes avrcp_registry_checked). Qed.
